@@ -13,6 +13,9 @@ PatTxt(p, i, j, c) ==
     [] p = 2 -> IF (i + j) % 2 = 0 THEN <<Tok(i, j, c)>> ELSE <<0>>
     [] p = 3 -> <<0>>
     [] p = 4 -> IF (i + j) % 2 = 1 THEN <<0, Tok(i, j, c)>> ELSE IF i = 1 THEN <<Tok(i, j, c), 0, Tok(i, j, c) + 50>> ELSE <<0, 0>>
+    \* blank bodies of every length next to each other: one empty paragraph (the only body the code calls "empty"), two and three
+    \* empty paragraphs (not "empty" for the code, yet without any text), and a lone text cell
+    [] p = 5 -> CASE (i + 2 * j) % 4 = 3 -> <<0>> [] (i + 2 * j) % 4 = 0 -> <<0, 0>> [] (i + 2 * j) % 4 = 1 -> <<0>> [] OTHER -> IF j = c THEN <<0, 0, 0>> ELSE <<Tok(i, j, c)>>
 Create(r, c, p) == [op |-> "create", r |-> r, c |-> c, w |-> W, h |-> H, pat |-> p,
                     txt |-> [i \in 1..r |-> [j \in 1..c |-> PatTxt(p, i, j, c)]]]
 
